@@ -131,9 +131,12 @@ def gen_noise(rng, n, real):
   return [rng.choice([0.5, 0.25, 0.125, 0.0625]) for _ in range(n)]
 
 
+MAXOPS = [12]     # longest generated history (30 in the thorough tier)
+
+
 def gen_pred_ops(rng, fresh, dim, real, allow_mean=True, n_ops=None):
   ops = []
-  for _ in range(n_ops or rng.randint(3, 12)):
+  for _ in range(n_ops or rng.randint(3, MAXOPS[0])):
     r = rng.random()
     if r < 0.34:
       k = rng.choice([0, 1, 1, 1, 2, 3])
@@ -169,7 +172,7 @@ def gen_input(rng, kind, real=False):
     v = list(range(n)) if not real else [rng.gauss(0, 1) for _ in range(n)]
     rng.shuffle(v)
     ops = []
-    for _ in range(rng.randint(3, 14)):
+    for _ in range(rng.randint(3, MAXOPS[0] + 2)):
       r = rng.random()
       if r < 0.4:
         ops.append(["append", [fresh.point(dim) for _ in range(rng.choice([0, 1, 1, 2, 3]))], rng.random() < 0.4])
@@ -275,7 +278,8 @@ KINDS = ["gp", "gp", "sum", "sum", "sum", "pz", "pz", "clgp", "clsum", "search"]
 
 
 def correspondence(ctx):
-  n = ctx.n(420, 6000)
+  n = ctx.n(700, 6000)
+  MAXOPS[0] = ctx.n(12, 30)
   cases, meta, seen, dist = [], [], set(), {}
   nontriv = 0
   for _ in range(n):
@@ -292,7 +296,7 @@ def correspondence(ctx):
     if h not in seen and nontrivial(kind, inp):
       nontriv += 1
     seen.add(h)
-  ep_cases, ep_meta, ep_dis = endpoint_cases(ctx, ctx.n(36, 300))
+  ep_cases, ep_meta, ep_dis = endpoint_cases(ctx, ctx.n(60, 300))
   for t, m in zip(ep_cases, ep_meta):
     cases.append(t)
     meta.append(m)
@@ -311,7 +315,7 @@ def correspondence(ctx):
         pass
     dis.append(dict(what=what, kind=kind, input=inp, observed=C.jsonable(obs)))
   return dict(evaluations=len(cases), distinct_nontrivial=nontriv,
-              rule="GP / GP-sum histories of 3-12 ops (+5 final reads) over 2-4 integer-valued observations in 1-2 dims: appends of 0-3 distinct "
+              rule="GP / GP-sum histories of 3-12 ops (3-30 in the thorough tier; +5 final reads) over 2-4 integer-valued observations in 1-2 dims: appends of 0-3 distinct "
                    "locations (min/max/mean lie, wrong-dimension blocks), every accessor, predictions; Parzen histories of 3-14 ops over 10-13 "
                    "points (append lower/greater, clear, stash, recover of any earlier stash or explicit lists, malformed lies); constant liar "
                    "(n<=4, GP and GP-sum predictors, caches warm or cold) and search (n<=4) with state-dependent stub optimisers; real endpoint "
@@ -643,7 +647,8 @@ def search(ctx, hints, broken):
       r = oracle(h["kind"], h["input"])
       if r:
         fails.append(r)
-  budget = ctx.n(500, 8000) * (2 if broken else 1)
+  MAXOPS[0] = ctx.n(12, 30)
+  budget = ctx.n(1500, 8000) * (2 if broken else 1)
   rng = ctx.rng
   sigs = set(f["signature"] for f in fails)
   for i in range(budget):
@@ -656,7 +661,7 @@ def search(ctx, hints, broken):
       fails.append(r)
       if len(fails) >= 4:
         break
-  for _ in range(ctx.n(40, 500)):
+  for _ in range(ctx.n(80, 500)):
     inp = gen_endpoint(rng)
     n += 1
     r = oracle("endpoint", inp)
